@@ -6,6 +6,7 @@ import (
 	"math/big"
 	"os"
 	"os/exec"
+	"path/filepath"
 	"runtime/debug"
 	"sort"
 	"strings"
@@ -471,9 +472,35 @@ func drainPool(pool service.TransactionPool) {
 // race detector); only the reorg part boots its own nodes, after dropping this one.
 var poolNode *boot.Node
 
+var startCwd string
+
+// keepFailFiles: the booted node changes the process cwd, so rapid writes its fail file under the
+// node directory; copy it to where the driver looks (the cwd the process was started in).
+func keepFailFiles(t *testing.T) {
+	if !t.Failed() || startCwd == "" {
+		return
+	}
+	cwd, err := os.Getwd()
+	if err != nil || cwd == startCwd {
+		return
+	}
+	files, _ := filepath.Glob(filepath.Join(cwd, "testdata", "rapid", "*", "*.fail"))
+	for _, f := range files {
+		dst := filepath.Join(startCwd, "testdata", "rapid", filepath.Base(filepath.Dir(f)))
+		if os.MkdirAll(dst, 0o755) == nil {
+			if b, e := os.ReadFile(f); e == nil {
+				_ = os.WriteFile(filepath.Join(dst, filepath.Base(f)), b, 0o644)
+			}
+		}
+	}
+}
+
 func needNode(t *testing.T) {
 	if poolNode != nil {
 		return
+	}
+	if startCwd == "" {
+		startCwd, _ = os.Getwd()
 	}
 	n, err := boot.Start()
 	if err != nil {
@@ -491,6 +518,7 @@ func dropNode() {
 
 func TestPoolStateMachine(t *testing.T) {
 	needNode(t)
+	defer keepFailFiles(t)
 	pool := boot.Pool()
 	stats.Check(t, 2500, 8000, func(t *rapid.T) {
 		m := &machine{t: t, pool: pool, salt: atomic.AddUint64(&caseSeq, 1),
@@ -963,6 +991,7 @@ const findingAddVsMark = "F-C17-b"
 
 func TestConcurrentMixes(t *testing.T) {
 	needNode(t)
+	defer keepFailFiles(t)
 	pool := boot.Pool()
 	stats.Check(t, 200, 1000, func(t *rapid.T) {
 		salt := atomic.AddUint64(&caseSeq, 1)
